@@ -1,4 +1,10 @@
+import os, sys
+sys.path.insert(0, os.path.dirname(os.path.dirname(os.path.abspath(__file__))))
+from srcgen import regen_src
+from srcreplay import replay_src  # translated transport layer run in Coq on the streams the real client was served
 PROP = {
+    "pre": [regen_src],
+    "extra": [replay_src({'cc'}, per_scn=120)],
     "coq": ["C12"],
     "exhaustive": False,
     "rule": "Scripted connection handing out at most one prescribed chunk per Read: C02-style client calls (MBAP and RTU: valid reply, reply + next "
